@@ -60,6 +60,11 @@ func Load(cfg Config) (*Prog, error) {
 	if cfg.GOARCH != "" {
 		env = append(env, "GOARCH="+cfg.GOARCH)
 	}
+	WordBits = 64
+	switch cfg.GOARCH {
+	case "386", "arm", "mips", "mipsle", "wasm":
+		WordBits = 32
+	}
 	pc := &packages.Config{
 		Mode: packages.LoadAllSyntax,
 		Dir:  cfg.Dir,
